@@ -115,7 +115,7 @@ def helper_values_inhabit_their_type(kind):
     sym.check("serialized_form_carries_the_reported_type_at_every_level", _serial_types_ok(v))
 
 
-@lemma("C14", unbounded="the integer payload", bounds="all widths 0..6 (symbolic); array / list / static-array constants of 0..3 elements over 4 element kinds")
+@lemma("C14", unbounded="the integer payload", bounds="all widths 0..6 (symbolic); array / list / static-array constants of 0..3 elements over 7 element kinds (bool, int, tuple, string, array, list, empty array of a linear type)")
 def std_constants_report_std_types():
     _n[0] = 0
     w = sym.concretize(sym.int("width", 0, 6))
@@ -129,8 +129,10 @@ def std_constants_report_std_types():
     sym.check("float_constant", type_equal(fv.typ, FLOAT_T) and fv.extensions == ["arithmetic.float.types"] and fv.val == {"value": 1.5})
     sv = StringVal("ab").to_value()
     sym.check("string_constant", type_equal(sv.typ, STRING_T) and sv.extensions == ["prelude"] and sv.val == {"value": "ab"})
-    kinds = [val.TRUE, IntVal(3, 4), val.Tuple(val.TRUE, val.Unit), StringVal("x")]
-    el = kinds[sym.concretize(sym.int("elem", 0, 3))]
+    # element kinds, including collections nested directly in collections
+    kinds = [val.TRUE, IntVal(3, 4), val.Tuple(val.TRUE, val.Unit), StringVal("x"),
+             ArrayVal([val.TRUE, val.FALSE], tys.Bool), ListVal([IntVal(1, 3)], int_t(3)), ArrayVal([], tys.Qubit)]
+    el = kinds[sym.concretize(sym.int("elem", 0, len(kinds) - 1))]
     m = sym.concretize(sym.int("len", 0, 3))
     elems = [el] * m
     a = ArrayVal(elems, el.type_())
@@ -142,10 +144,11 @@ def std_constants_report_std_types():
     lv = li.to_value()
     sym.check("list_constant", type_equal(li.type_(), List(el.type_())) and lv.extensions == ["collections.list"]
               and len(lv.val["values"]) == m and lv.val["typ"] == el.type_()._to_serial_root())
-    sa = StaticArrayVal(elems, el.type_(), "nm")
-    sv2 = sa.to_value()
-    sym.check("static_array_constant", type_equal(sa.type_(), StaticArray(el.type_())) and sv2.extensions == ["collections.static_array"]
-              and len(sv2.val["value"]["values"]) == m and sv2.val["value"]["typ"] == el.type_()._to_serial_root() and sv2.val["name"] == "nm")
+    if el.type_().type_bound() == tys.TypeBound.Copyable:   # (static arrays rightly refuse linear element types: C07)
+        sa = StaticArrayVal(elems, el.type_(), "nm")
+        sv2 = sa.to_value()
+        sym.check("static_array_constant", type_equal(sa.type_(), StaticArray(el.type_())) and sv2.extensions == ["collections.static_array"]
+                  and len(sv2.val["value"]["values"]) == m and sv2.val["value"]["typ"] == el.type_()._to_serial_root() and sv2.val["name"] == "nm")
 
 
 @lemma("C14", bounds="function-valued constants over 3 body shapes")
